@@ -16,7 +16,8 @@
      is_report it       it declares template identifier 1500
      holds_3d c         the document class can hold 3-D coordinates
      tup e              (study, series, uid, class) of a supplied record
-     verif_missing a    is_verified without observer name or without organization
+     verif_missing a    is_verified without observer name or without organization (absent or empty)
+     given o            the verification detail o is neither absent (None) nor the empty string (0)
      built_doc k a r cu the document the constructor builds from root r and evidence cu
      ko_ref_item r      the IMAGE / COMPOSITE item a key object selection holds for object r *)
 From Coq Require Import String ZArith List Bool Permutation.
@@ -106,7 +107,7 @@ Theorem C15_document_accepted_iff : forall c a d,
   sr_init c a = Ok d <->
   exists root cu,
     (a_evidence a <> [] /\ a_ts_ok a = true /\
-     (a_verified a = true -> is_some (a_observer a) = true /\ is_some (a_org a) = true) /\
+     (a_verified a = true -> given (a_observer a) = true /\ given (a_org a) = true) /\
      single_root (a_content a) = Some root /\ i_rel root = 0 /\ i_vt root = CONTAINER /\
      collect_evidence (a_root_cs a) (a_evidence a) root = Ok cu) /\
     d = built_doc (class_code c) a root cu /\
@@ -132,7 +133,7 @@ Print Assumptions C15_document_partition.
    exactly when a reference lacks supplied evidence *)
 Theorem C15_document_refused_iff : forall c a root,
   a_evidence a <> [] -> a_ts_ok a = true ->
-  (a_verified a = true -> is_some (a_observer a) = true /\ is_some (a_org a) = true) ->
+  (a_verified a = true -> given (a_observer a) = true /\ given (a_org a) = true) ->
   single_root (a_content a) = Some root -> i_rel root = 0 -> i_vt root = CONTAINER ->
   a_root_cs a = true -> refs_wf root ->
   (holds_3d c = false -> has_scoord3d root = false) ->
@@ -183,13 +184,29 @@ Print Assumptions C15_no_scoord3d_no_refusal.
 
 (* ---- verification ------------------------------------------------------------------------------ *)
 Theorem C15_verified_needs_details : forall c a,
-  a_verified a = true -> (a_observer a = None \/ a_org a = None) -> sr_init c a = Err "ValueError".
+  a_verified a = true -> (given (a_observer a) = false \/ given (a_org a) = false) ->
+  sr_init c a = Err "ValueError".
 Proof. exact verified_needs_details. Qed.
 Print Assumptions C15_verified_needs_details.
 
+(* given o: the detail is neither absent (None) nor the empty string (numbered 0) *)
+Theorem C15_detail_given_iff : forall o,
+  (given o = true <-> exists n, o = Some n /\ n <> 0) /\
+  (given o = false <-> o = None \/ o = Some 0).
+Proof. intros o. split; [exact (given_true_iff o)|exact (given_false_iff o)]. Qed.
+Print Assumptions C15_detail_given_iff.
+
+Theorem C15_verification_guard_iff : forall a,
+  verif_missing a = true <->
+  a_verified a = true /\
+  (a_observer a = None \/ a_observer a = Some 0 \/ a_org a = None \/ a_org a = Some 0).
+Proof. exact verif_missing_iff. Qed.
+Print Assumptions C15_verification_guard_iff.
+
 Theorem C15_verified_recorded : forall c a d, sr_init c a = Ok d ->
   d_verified d = a_verified a /\ d_complete d = a_complete a /\ d_final d = a_final a /\
-  (a_verified a = true -> exists n o, a_observer a = Some n /\ a_org a = Some o /\ d_observer d = Some (n, o)) /\
+  (a_verified a = true -> exists n o, a_observer a = Some n /\ a_org a = Some o /\ d_observer d = Some (n, o) /\
+                                      n <> 0 /\ o <> 0) /\
   (a_verified a = false -> d_observer d = None).
 Proof. exact verified_recorded. Qed.
 Print Assumptions C15_verified_recorded.
@@ -455,7 +472,7 @@ Theorem C15_document_refusal_total : forall c a k,
                collect_evidence (a_root_cs a) (a_evidence a) root = Err k))))))))))) \/
   (exists root cu,
      (a_evidence a <> [] /\ a_ts_ok a = true /\
-      (a_verified a = true -> is_some (a_observer a) = true /\ is_some (a_org a) = true) /\
+      (a_verified a = true -> given (a_observer a) = true /\ given (a_org a) = true) /\
       single_root (a_content a) = Some root /\ i_rel root = 0 /\ i_vt root = CONTAINER /\
       collect_evidence (a_root_cs a) (a_evidence a) root = Ok cu) /\
      holds_3d c = false /\
@@ -624,15 +641,18 @@ Proof. exact extras_recorded. Qed.
 Print Assumptions C15_unrelated_arguments_recorded.
 
 (* "verification details are demanded when a document is marked verified" - for every class and
-   WHATEVER the other optional arguments are: a missing observer name or organization is refused,
+   WHATEVER the other optional arguments are: an observer name or organization that is absent
+   (None) OR EMPTY (the empty string, numbered 0) is refused,
    and an accepted verified document records exactly the two details given *)
 Theorem C15_verification_whatever_else : forall c a x,
-  (a_verified a = true -> (a_observer a = None \/ a_org a = None) ->
+  (a_verified a = true ->
+     (a_observer a = None \/ a_observer a = Some 0 \/ a_org a = None \/ a_org a = Some 0) ->
      sr_init c (set_extras a x) = Err "ValueError") /\
   (forall d, sr_init c (set_extras a x) = Ok d ->
      d_verified d = a_verified a /\
      (a_verified a = true ->
-        exists n o, a_observer a = Some n /\ a_org a = Some o /\ d_observer d = Some (n, o)) /\
+        exists n o, a_observer a = Some n /\ a_org a = Some o /\ d_observer d = Some (n, o) /\
+                    n <> 0 /\ o <> 0) /\
      (a_verified a = false -> d_observer d = None)).
 Proof. exact verification_whatever_else. Qed.
 Print Assumptions C15_verification_whatever_else.
@@ -644,6 +664,8 @@ Example C15_verification_example :
   sr_init Comprehensive3D (ver_args None (Extras (Some 3) (Some 4) None None)) = Err "ValueError" /\
   sr_init Comprehensive (ver_args None (Extras (Some 3) None None None)) = Err "ValueError" /\
   sr_init Enhanced (ver_args None (Extras (Some 3) None None (Some [9]))) = Err "ValueError" /\
+  sr_init Comprehensive3D (ver_args (Some 0) (Extras (Some 3) None None None)) = Err "ValueError" /\
+  sr_init Enhanced (ver_args (Some 0) no_extras) = Err "ValueError" /\
   exists d, sr_init Comprehensive3D (ver_args (Some 8) (Extras (Some 3) (Some 4) None (Some [9]))) = Ok d /\
     d_observer d = Some (7, 8) /\ d_extras d = Recorded (Some 3) (Some 4) (Some []) (Some [9]).
 Proof. exact verification_example. Qed.
